@@ -60,6 +60,102 @@ Theorem C20_new_hash_pure : forall ns1 ins1 ns2 ins2,
 Proof. exact new_hash_pure. Qed.
 Print Assumptions C20_new_hash_pure.
 
+(* the same as a statement about a PROCESS: the package-level state of lib/id62 is threaded through any
+   sequence of NewHash calls; every call returns [new_hash] of its own arguments whatever was
+   derived before, and leaves the state as it found it.  This is by construction of the model; what
+   ties it to the code is the next theorem (and, on the running code, the hash-history stream) *)
+Theorem C20_new_hash_history_independent : forall st calls,
+  new_hash_seq st calls = (st, map (fun c => new_hash (fst c) (snd c)) calls).
+Proof. exact new_hash_seq_spec. Qed.
+Print Assumptions C20_new_hash_history_independent.
+
+(* the tie: in the Go source NewHash, and every function of the package it calls, reads or writes no
+   package-level variable and starts no goroutine; its calls are sha1.New / Reset / Write / Write / Sum /
+   copy on objects it creates (regenerated table; a memo map, a shared hasher or digest buffer breaks this lemma at build time; on the running code: the hash-history and hash-concurrent streams) *)
+Theorem C20_new_hash_stateless_in_code :
+  Id62Gen.newhash_state_refs = [] /\
+  Id62Gen.newhash_calls = ["call:sha1.New"; "call:h.Reset"; "call:h.Write"; "call:h.Write"; "call:h.Sum"; "call:copy"]%string.
+Proof. exact newhash_is_stateless. Qed.
+Print Assumptions C20_new_hash_stateless_in_code.
+
+(* ---- the language Parse accepts (it is NOT a validator of the published pattern) ---------- *)
+(* accepted = an optional sign, one or more base62 digits, magnitude below 2^128: any length, leading
+   zeros, "+1", "-1" (the sign is dropped: Go's big.Int.Bytes is the absolute value) *)
+Theorem C20_parse_accepted_language : forall s,
+  (exists bs, parse s = Ok bs) <-> (exists n, parse_value s = Some n /\ n < 2 ^ 128).
+Proof. exact parse_accepts_iff. Qed.
+Print Assumptions C20_parse_accepted_language.
+
+Theorem C20_parse_is_not_a_validator :
+  let id1 := repeat 0 15 ++ [1] in
+  parse [45; 49] = Ok id1 /\ parse [43; 49] = Ok id1 /\ parse [49] = Ok id1 /\
+  parse (repeat 48 40 ++ [49]) = Ok id1 /\
+  matches (id62_class, 22) [45; 49] = false /\ matches (id62_class, 22) (repeat 48 40 ++ [49]) = false /\
+  render id1 = Ok (repeat 48 21 ++ [49]).
+Proof. exact parse_not_a_validator. Qed.
+Print Assumptions C20_parse_is_not_a_validator.
+
+(* but on strings of the published shape (what a key:id62 rule lets through) Parse is the exact inverse
+   of String: such a string parses to an identifier only if it is that identifier's rendering *)
+Theorem C20_parse_inverse_on_pattern : forall s bs p,
+  parse_pattern Id62Gen.pattern_string = Some p -> matches p s = true -> parse s = Ok bs -> render bs = Ok s.
+Proof.
+  intros s bs p Hp. rewrite pattern_parsed in Hp. injection Hp as <-. exact (parse_shaped_inverse s bs).
+Qed.
+Print Assumptions C20_parse_inverse_on_pattern.
+
+(* ---- the pattern the compiler bakes in and the reader recognises ------------------------------ *)
+(* compiler (j5convert/fields.go) and reader (j5schema/schema_from_proto.go) both refer to
+   id62.PatternString and neither carries a literal copy of it *)
+Theorem C20_pattern_single_source : pattern_single_source = true.
+Proof. exact pattern_single_source_ok. Qed.
+Print Assumptions C20_pattern_single_source.
+
+(* the reader's table (regenerated, keys and values resolved) maps the published pattern — and no
+   other pattern — to the id62 format *)
+Theorem C20_reader_recognises_exactly_the_pattern : forall pat,
+  reads_back_as Id62Gen.reader_patterns Id62Gen.reader_id62_format pat = true <-> pat = Id62Gen.pattern_string.
+Proof.
+  intros pat. split; [exact (reader_only_published pat)|intros ->; exact reader_recognises_published].
+Qed.
+Print Assumptions C20_reader_recognises_exactly_the_pattern.
+
+(* ---- the property as one statement ---------------------------------------------------------- *)
+Definition C20_full_statement : Prop :=
+  (* every 16-byte identifier renders to exactly 22 characters matching the published pattern *)
+  (forall bs, wf_id bs -> exists s p, render bs = Ok s /\ length s = 22%nat /\
+                                       parse_pattern Id62Gen.pattern_string = Some p /\ matches p s = true) /\
+  (* and parses back to the same 16 bytes, so distinct identifiers have distinct renderings *)
+  (forall bs s, wf_id bs -> render bs = Ok s -> parse s = Ok bs) /\
+  (forall b1 b2 s, wf_id b1 -> wf_id b2 -> render b1 = Ok s -> render b2 = Ok s -> b1 = b2) /\
+  (* parsing never panics on any string *)
+  (forall s, is_panic (parse s) = false /\ parse s <> OutOfFuel) /\
+  (* and rejects values that do not fit in 16 bytes; what it accepts denotes exactly the bytes returned *)
+  (forall s n, parse_value s = Some n -> 2 ^ 128 <= n -> is_err (parse s) = true) /\
+  (forall s n bs, parse_value s = Some n -> parse s = Ok bs -> wf_id bs /\ of_bytes_be bs = n) /\
+  (* hash-derived identifiers are a pure function of namespace and inputs: of the arguments only (through
+     their concatenation), whatever was derived before *)
+  (forall ns1 ins1 ns2 ins2, ns1 ++ concat ins1 = ns2 ++ concat ins2 -> new_hash ns1 ins1 = new_hash ns2 ins2) /\
+  (forall st calls, new_hash_seq st calls = (st, map (fun c => new_hash (fst c) (snd c)) calls)).
+
+Theorem C20_full : C20_full_statement.
+Proof.
+  unfold C20_full_statement. repeat split.
+  - intros bs H. destruct (render_no_panic bs H) as [s Hs]. destruct (render_matches bs s H Hs) as [p [Hp Hm]].
+    exists s, p. repeat split; try assumption. exact (render_len bs s H Hs).
+  - exact parse_render.
+  - exact render_inj.
+  - apply parse_total.
+  - apply parse_total.
+  - exact parse_rejects_big.
+  - exact (proj1 (parse_ok_shape s bs H0)).
+  - exact (proj2 (parse_ok_shape s bs H0)).
+  - exact (parse_value_exact s n bs H H0).
+  - exact new_hash_pure.
+  - exact new_hash_seq_spec.
+Qed.
+Print Assumptions C20_full.
+
 (* non-vacuity: a concrete identifier meets the hypotheses and exercises padding *)
 Example C20_example :
   let bs := [0;0;0;0;0;0;0;0;0;0;0;0;0;0;1;44] in
